@@ -356,6 +356,31 @@ func parseRule(c *core.Ctx) {
 				if _, isConst := e.Cond.(*ssa.Const); !isConst {
 					props = append(props, proposition(e))
 				}
+				// two small arrays found equal ([3]byte{c[0], c[1], c[2]} == [3]byte{5, 0, 3}): every pair of elements is equal
+				if bo, ok := e.Cond.(*ssa.BinOp); ok && ((bo.Op == token.EQL && e.Taken) || (bo.Op == token.NEQ && !e.Taken)) {
+					elems := func(v ssa.Value) []ssa.Value {
+						ld, ok := v.(*ssa.UnOp)
+						if !ok || ld.Op != token.MUL {
+							return nil
+						}
+						al, ok := ld.X.(*ssa.Alloc)
+						if !ok {
+							return nil
+						}
+						if _, isArr := al.Type().Underlying().(*types.Pointer).Elem().Underlying().(*types.Array); !isArr {
+							return nil
+						}
+						return onceStoredElems(al)
+					}
+					xs, ys := elems(bo.X), elems(bo.Y)
+					if len(xs) > 0 && len(xs) == len(ys) {
+						for i := range xs {
+							if xs[i] != nil && ys[i] != nil {
+								props = append(props, role(e, xs[i])+"=="+role(e, ys[i]))
+							}
+						}
+					}
+				}
 			}
 		}
 		has := func(s string) bool {
@@ -426,4 +451,44 @@ func parseRule(c *core.Ctx) {
 	c.Decide(form7 >= 1 && len(problems) == 0, "C07-PARSE", "ParseLongSmsContent#form7", pos, "06 08 04 refHi refLo total seq, payload content[7:]", strings.Join(uniq(problems), "; "))
 	c.Decide(reject >= 2 && len(problems) == 0, "C07-PARSE", "ParseLongSmsContent#reject", pos, fmt.Sprintf("%d rejecting paths leave the content unchanged", reject), strings.Join(uniq(problems), "; "))
 	c.Sample(map[string]any{"ParseLongSmsContent": fmt.Sprintf("%d paths: %d accept 8-bit form, %d accept 16-bit form, %d reject", len(ps), form6, form7, reject)})
+}
+
+// onceStoredElems: the elements of a local array each of which is stored exactly once, by constant index, the array being
+// otherwise only loaded as a whole; nil when the array is written in any other way.
+func onceStoredElems(al *ssa.Alloc) []ssa.Value {
+	arr, ok := al.Type().Underlying().(*types.Pointer).Elem().Underlying().(*types.Array)
+	if !ok || al.Referrers() == nil || arr.Len() > 16 {
+		return nil
+	}
+	out := make([]ssa.Value, arr.Len())
+	for _, r := range *al.Referrers() {
+		switch x := r.(type) {
+		case *ssa.IndexAddr:
+			k, isK := constInt(x.Index)
+			if !isK || k < 0 || k >= arr.Len() || x.Referrers() == nil {
+				return nil
+			}
+			for _, rr := range *x.Referrers() {
+				st, isSt := rr.(*ssa.Store)
+				if !isSt || st.Addr != ssa.Value(x) || out[k] != nil {
+					return nil
+				}
+				out[k] = st.Val
+			}
+		case *ssa.UnOp:
+			if x.Op != token.MUL {
+				return nil
+			}
+		case *ssa.DebugRef:
+		default:
+			return nil
+		}
+	}
+	for i, v := range out {
+		if v == nil {
+			// an element never stored keeps its zero value
+			out[i] = ssa.NewConst(constant.MakeInt64(0), arr.Elem())
+		}
+	}
+	return out
 }
